@@ -405,6 +405,11 @@ func c10Monitor(m *vk.Meta, in c10In, out c10Out) {
 				continue
 			}
 			broken := c.Threads == "perm" || c.Threads == "error" || c.Sticky
+			if broken && c.Source != "h1" && (n.Chan == nil || n.Chan.Source != "h1") {
+				// re-pointing does not depend on the state of the threads: an error of the receiver (the old source purged
+				// its logs) is exactly what pointing the replica at the master cures, and no repair attempt was spent on it
+				m.Violation("repeated iterations make every reachable HA node a replica of the recorded master (a replica in error that follows another host is re-pointed all the same)", in, fmt.Sprintf("%s chan=%+v", h, n.Chan))
+			}
 			if !broken {
 				if n.Chan == nil || n.Chan.Source != "h1" || !n.Chan.IO || !n.Chan.SQL {
 					m.Violation("repeated iterations make every reachable HA node a running replica of the recorded master", in, fmt.Sprintf("%s chan=%+v", h, n.Chan))
